@@ -65,6 +65,9 @@ def _work(units):
                 progcheck.check_prog(acc, ast, [dict(e, u="id7") for e in envs], "op-decorated:" + tag, text=text)
             ast3 = esh.prog_of(("if", ("not", p), ("ret", (("N", "1"),)), ("elif", ("and", p, ("not", ("not", p))), ("ret", (("P", "1"),)), None)))
             progcheck.check_prog(acc, ast3, [dict(e, u="id7") for e in envs], "op-not:" + tag)
+        elif kind == "case":
+            _, tag, ast, envs = u
+            progcheck.check_prog(acc, ast, envs, "big:" + tag)
         elif kind == "cross":
             _, tj, i0, i1 = u
             a0, a1 = eops.CROSS_ATOMS[i0], eops.CROSS_ATOMS[i1]
@@ -89,6 +92,10 @@ def units(tier):
         step = max(1, min(64, 256 >> L))
         out += [("pred", L, lo, min(n, lo + step)) for lo in range(0, n, step)]
     out += [("op", tag, p, envs) for tag, p, envs in eops.op_cases()]
+    # sizes beyond the shape enumeration: long boolean runs with one bracketed sub-expression, laziness of guarded comparisons
+    from ..enum import idents as ei
+
+    out += [("case", tag, a, e) for tag, a, e in ei.big() if tag.startswith(("boolmix", "lazy", "boolchain", "chain2", "nestchain"))]
     nt = esh.count_preds(2)
     out += [("cross", tj, i0, i1) for tj in range(nt) for i0 in range(8) for i1 in range(8)]
     return out
